@@ -88,17 +88,22 @@ def cross_check_in_coq(ctx, n_scen):
         exp = "[%s]" % ";".join(cm[:5] + ap[:4])
         cases.append("(%s, %s)" % ("[" + "; ".join(labels) + "]", exp))
     body = ("From Coq Require Import List NArith Bool.\nFrom OC Require Import Model.Proto3.\nImport ListNotations.\nOpen Scope N_scope.\n"
-            "Definition pa : path := [1].\n"
-            "Definition leaf (v idx : N) : path * pval := (pa, {| pv_path := pa; pv_val := v; pv_del := false; pv_idx := idx |}).\n"
-            "Definition tomb (idx : N) : path * pval := (pa, {| pv_path := pa; pv_val := 0; pv_del := true; pv_idx := idx |}).\n"
+            "Definition pa : path := [1].\nDefinition pz : path := [26].\n"
+            "Definition leaf (p : path) (v idx : N) : path * pval := (p, {| pv_path := p; pv_val := v; pv_del := false; pv_idx := idx |}).\n"
+            "Definition tomb (p : path) (idx : N) : path * pval := (p, {| pv_path := p; pv_val := 0; pv_del := true; pv_idx := idx |}).\n"
             "Definition orc v c : oracle := {| o_verdict := v; o_code := c; o_last := None; o_master := 1 |}.\n"
             "Definition orc2 v c : oracle := {| o_verdict := v; o_code := c; o_last := None; o_master := 2 |}.\n"
             "Definition cur (w : world) : list N := match w_cfg w with None => [] | Some c => "
             "[k_index (c_cm c); k_ordinal (c_cm c); k_revision (c_cm c); k_target (c_cm c); k_change (c_cm c); "
             "k_index (c_ap c); k_ordinal (c_ap c); k_revision (c_ap c); k_target (c_ap c)] end.\n"
-            "Definition eqs (a b : list N) := (length a =? length b)%nat && forallb (fun p => fst p =? snd p) (combine a b).\n"
+            "Definition eqs (a b : list N) := Nat.eqb (length a) (length b) && forallb (fun p => fst p =? snd p) (combine a b).\n"
+            "Definition first_own (w : world) : N := match filter snd (w_rels w) with r :: _ => fst r | [] => 0 end.\n"
+            "Definition step' (w : world) (l : label) : world := match l with\n"
+            "  | LRecMaster k o => step w (LRecMaster k {| o_verdict := o_verdict o; o_code := o_code o; o_last := None; o_master := first_own w |})\n"
+            "  | _ => step w l end.\n"
+            "Definition run' (ls : list label) : world := fold_left step' ls w0.\n"
             "Definition cases : list (list label * list N) := [\n" + ";\n".join(cases) + "].\n"
-            "Definition bad := Eval vm_compute in List.length (filter (fun c => negb (eqs (cur (run (fst c))) (snd c))) cases).\n"
+            "Definition bad := Eval vm_compute in List.length (filter (fun c => negb (eqs (cur (run' (fst c))) (snd c))) cases).\n"
             "Print bad.\n")
     if not cases:
         ctx.coverage["in_kernel_cross_check"] = {"cases": 0, "agree": True}
@@ -124,9 +129,10 @@ def coq_label(op, ntx):
         out = []
         for kv in s.split(","):
             p, v = kv.split("=")
-            if p != "/a":
+            if p not in ("/a", "/z"):
                 return None
-            out.append("tomb %d" % idx if v == "-" else "leaf %s %d" % (v, idx))
+            pp = "pa" if p == "/a" else "pz"
+            out.append("tomb %s %d" % (pp, idx) if v == "-" else "leaf %s %s %d" % (pp, v, idx))
         return "[" + "; ".join(out) + "]"
 
     def k(b):
@@ -145,17 +151,17 @@ def coq_label(op, ntx):
         i = int(op[1][1:])
         if o == "up":
             # an existing relation keeps its owner: only c3 is ever foreign in the generator
-            return ["LRel %d true %s" % (i, "false" if i == 3 else "true"), "LConn %d true" % i] if i != 3 else None
+            return ["LRel %d true true" % i, "LConn %d true" % i] if i % 10 == 1 else None  # only c1 (one candidate at a time)
         if o == "down":
             return ["LConn %d false" % i, "LRel %d false true" % i]
         if o == "rup":
-            return None  # keeps an existing relation as it is: depends on the state
+            return ["LRel %d true true" % i] if i % 10 != 3 else None
         if o == "fup":
-            return None
+            return ["LRel %d true false" % i] if i % 10 == 3 else None
         if o == "rdown":
             return ["LRel %d false true" % i]
         if o == "cup":
-            return None
+            return ["LConn %d true" % i]
         if o == "cdown":
             return ["LConn %d false" % i]
     if o == "restart":
@@ -173,5 +179,5 @@ def coq_label(op, ntx):
     if o == "c":
         return ["LRecCfg %s (orc VAccept %d)" % (k(op[1]), CODES[op[2]])]
     if o == "m":
-        return None  # the elected relation is read off the observation by the driver; scenarios with elections among two are skipped
+        return ["LRecMaster %s (orc VAccept 0)" % k(op[1])]  # the replay elects the first candidate (see run' in the cases file)
     return None
